@@ -7,7 +7,7 @@ valid history; a deep copy T is taken just before the call.  If the library rais
 that consumed randomness or left a half-published history is seen.  Calls that are not rejected are counted
 and excluded.  Constructor rejections: the caller's objects and a bystander bandit must be untouched.
 
-As built: Catalogue extras: fit / first partial_fit with fewer rows than clusters, singular normal matrix with l2_lambda=0 (fit and partial_fit); continuations of never-fitted bandits may start with partial_fit. Round 4/5 classes: add_arm rejected for its arm while carrying a valid binarizer, a singular refit of another width, a row [2^30, ...] that swallows the ridge term (any l2_lambda); every continuation of a contextual bandit starts with two Series probes. Interpreter-wide state must be unchanged by every rejected call; every continuation starts with a cold_arms probe; the huge-row class carries ordinary rows of the other arms.
+As built: Catalogue extras: fit / first partial_fit with fewer rows than clusters, singular normal matrix with l2_lambda=0 (fit and partial_fit); continuations of never-fitted bandits may start with partial_fit. Round 4/5 classes: add_arm rejected for its arm while carrying a valid binarizer, a singular refit of another width, a row [2^30, ...] that swallows the ridge term (any l2_lambda); every continuation of a contextual bandit starts with two Series probes. Interpreter-wide state must be unchanged by every rejected call; every continuation starts with a cold_arms probe; the huge-row class carries ordinary rows of the other arms. Round 8: fault class fit / partial_fit:binarizer_raises (user callback fails inside the call); known finding K7 with a defect-aware model.
 """
 from mon import env  # noqa: F401
 import copy
